@@ -56,7 +56,7 @@ class Lean:
         if REPO != "/repo":
             work = os.path.join(VERIF, ".work", f"lean-{os.getpid()}")
             os.makedirs(os.path.dirname(work), exist_ok=True)
-            shutil.copytree(LEAN_SRC, work, symlinks=True)
+            shutil.copytree(LEAN_SRC, work, symlinks=True, ignore=shutil.ignore_patterns(".audit_*", "verif.lock"), ignore_dangling_symlinks=True)
             self.dir = work
             self.private = True
         self.build_log = ""
